@@ -118,6 +118,10 @@ impl Mk for BVec3A {
 // ---- bit views (for bit-exact comparisons and uninterpreted-function keys) ----
 pub trait Words: Copy {
     fn words(&self) -> [u64; 4];
+    /// key form: like `words` but every NaN lane is mapped to ONE canonical pattern (under the SMT back
+    /// end the bits of a NaN are unspecified per conversion; results are compared as IEEE values)
+    #[inline(always)]
+    fn kwords(&self) -> [u64; 4] { self.words() }
 }
 macro_rules! words_prim {
     ($($t:ty),*) => {$(
@@ -131,10 +135,14 @@ words_prim!(u8, u16, u32, u64, usize, i8, i16, i32, i64, isize);
 impl Words for f32 {
     #[inline(always)]
     fn words(&self) -> [u64; 4] { [self.to_bits() as u64, 0, 0, 0] }
+    #[inline(always)]
+    fn kwords(&self) -> [u64; 4] { [crate::uf::k32(*self), 0, 0, 0] }
 }
 impl Words for f64 {
     #[inline(always)]
     fn words(&self) -> [u64; 4] { [self.to_bits(), 0, 0, 0] }
+    #[inline(always)]
+    fn kwords(&self) -> [u64; 4] { [crate::uf::k64(*self), 0, 0, 0] }
 }
 impl Words for bool {
     #[inline(always)]
@@ -148,6 +156,13 @@ macro_rules! words_vec {
                 let a = self.to_array();
                 let mut w = [0u64; 4];
                 $( w[$i] = a[$i].words()[0]; )*
+                w
+            }
+            #[inline(always)]
+            fn kwords(&self) -> [u64; 4] {
+                let a = self.to_array();
+                let mut w = [0u64; 4];
+                $( w[$i] = a[$i].kwords()[0]; )*
                 w
             }
         }
